@@ -6,7 +6,7 @@
 //   assign(v)            v from a per-type pool: lengths 0, 1, 2, 3, 64; numeric extremes; NaN / +-inf / -0.0; "", 300-char
 //                        and UTF-8 strings; a vector of another type; a mixed-type vector (both must be rejected)
 //   deleteValues | values(none)
-//   unit("mV" | " m V " | "kHz" | "" | none) | uncertainty(x | none) | definition(s | none)
+//   unit("mV" | " m V " | "kHz" | "µS/cm" | "mumol/l" | "" | none) | uncertainty(x | none) | definition(s | none)
 //   REOPEN               close the file and open it again (ReadWrite)
 // is replayed on a fresh file.  Part A: all sequences up to depth D (3 quick, 4 thorough) over the core alphabet (19 letters);
 // part B: all sequences up to depth D-1 that contain at least one letter of the extended alphabet (a second wrong-type vector,
@@ -235,6 +235,8 @@ static std::vector<Letter> make_alphabet(DataType t) {
     { Letter l; l.kind = UNIT; l.s = "mV"; l.label = "unit(\"mV\")"; l.cls = "unit(s)"; a.push_back(l); }
     { Letter l; l.kind = UNIT; l.s = " m V "; l.label = "unit(\" m V \")"; l.cls = "unit(s with blanks)"; a.push_back(l); }
     { Letter l; l.kind = UNIT; l.s = "kHz"; l.label = "unit(\"kHz\")"; l.cls = "unit(s)"; a.push_back(l); }
+    { Letter l; l.kind = UNIT; l.s = "\xc2\xb5S/cm"; l.label = "unit(\"\xc2\xb5S/cm\")"; l.cls = "unit(s with a micro sign)"; a.push_back(l); }
+    { Letter l; l.kind = UNIT; l.s = "mumol/l"; l.label = "unit(\"mumol/l\")"; l.cls = "unit(s containing mu)"; a.push_back(l); }
     { Letter l; l.kind = UNIT; l.s = ""; l.label = "unit(\"\")"; l.cls = "unit(\"\")"; a.push_back(l); }
     { Letter l; l.kind = UNIT_NONE; l.label = l.cls = "unit(none)"; a.push_back(l); }
     { Letter l; l.kind = UNCERTAINTY; l.x = 0.1; l.label = "uncertainty(0.1)"; l.cls = "uncertainty(x)"; a.push_back(l); }
